@@ -517,6 +517,7 @@ fn ser_math(n: &SyntaxNode, out: &mut String) {
         K::Math | K::MathDelimited => {
             out.push_str(if k == K::Math { "M[" } else { "D[" });
             let mut after_hash = false;
+            let mut after_code = false;
             for c in n.children() {
                 if c.kind() == K::Space {
                     out.push(ws_class(c));
@@ -524,7 +525,11 @@ fn ser_math(n: &SyntaxNode, out: &mut String) {
                     // embedded code: formatted as code, not math
                     out.push_str("code");
                     after_hash = false;
+                    after_code = true;
+                } else if after_code && c.kind() == K::Semicolon {
+                    after_code = false;
                 } else {
+                    after_code = false;
                     after_hash = c.kind() == K::Hash;
                     ser_math(c, out);
                 }
@@ -535,12 +540,18 @@ fn ser_math(n: &SyntaxNode, out: &mut String) {
             // white space directly around `_ ^ / √` is exempt
             out.push_str("A[");
             let mut after_hash = false;
+            let mut after_code = false;
             for c in n.children() {
                 if c.kind() == K::Space {
                 } else if after_hash {
                     out.push_str("code");
                     after_hash = false;
+                    after_code = true;
+                } else if after_code && c.kind() == K::Semicolon {
+                    // the terminator of the hashed expression: an optional separator
+                    after_code = false;
                 } else {
+                    after_code = false;
                     after_hash = c.kind() == K::Hash;
                     ser_math(c, out);
                 }
@@ -551,12 +562,18 @@ fn ser_math(n: &SyntaxNode, out: &mut String) {
             // a math function call: padding inside the parentheses and around separators is exempt
             out.push_str("F[");
             let mut after_hash = false;
+            let mut after_code = false;
             for c in n.children() {
                 if c.kind() == K::Space {
                 } else if after_hash {
                     out.push_str("code");
                     after_hash = false;
+                    after_code = true;
+                } else if after_code && c.kind() == K::Semicolon {
+                    // the terminator of the hashed expression: an optional separator
+                    after_code = false;
                 } else {
+                    after_code = false;
                     after_hash = c.kind() == K::Hash;
                     ser_math(c, out);
                 }
@@ -950,7 +967,6 @@ pub fn check_c19(src: &str, out_off: &str, out_on: &str) -> Option<String> {
                 ));
             }
         } else {
-            // the sort key is the item's source text
             let mut used = vec![false; s[i].items.len()];
             let keys: Vec<String> = on[i]
                 .items
@@ -958,7 +974,15 @@ pub fn check_c19(src: &str, out_off: &str, out_on: &str) -> Option<String> {
                 .map(|it| {
                     let j = (0..s[i].items.len()).find(|&j| !used[j] && &s[i].items[j] == it).unwrap_or(0);
                     used[j] = true;
-                    s[i].raw[j].clone()
+                    // the sort key is the item's text with the spacing the formatter gives it
+                    let mut key = String::new();
+                    for w in s[i].raw[j].split_whitespace() {
+                        if !key.is_empty() && !key.ends_with('.') && !w.starts_with('.') {
+                            key.push(' ');
+                        }
+                        key.push_str(w);
+                    }
+                    key
                 })
                 .collect();
             let sorted = keys.windows(2).all(|w| w[0].as_bytes() <= w[1].as_bytes());
